@@ -223,7 +223,27 @@ def run(ctx, which):
                         hist.append((k, o, ln))
                     rng.shuffle(hist)
                     kept = []
+                    # now and then a second index, on the previous case's file, is used alternately with this one (two files open at
+                    # once): its fetches must give what they give alone
+                    comp_ix = comp_solo = None
+                    comp_bad = []
+                    if ci % 4 == 2 and prev_data is not None:
+                        try:
+                            comp_ix = Index.LogicalRecordIndex(io.BytesIO(prev_data))
+                            comp_ix.__enter__()
+                            comp_solo = [bytes(comp_ix.get_file_logical_data(j_, 0, -1).logical_data.bytes) for j_ in range(len(comp_ix))]
+                        except Exception:
+                            comp_ix = None
+                    nfetch = 0
                     for (k, o, ln) in hist[:nget + len(recs)]:
+                        if comp_ix is not None and comp_solo:
+                            j_ = (nfetch * 7 + 3) % len(comp_solo)
+                            nfetch += 1
+                            try:
+                                if bytes(comp_ix.get_file_logical_data(j_, 0, -1).logical_data.bytes) != comp_solo[j_]:
+                                    comp_bad.append('record %d differs' % (j_ + 1))
+                            except Exception as e_:
+                                comp_bad.append('record %d: %s: %s' % (j_ + 1, type(e_).__name__, e_))
                         f.start()
                         fld = ix.get_file_logical_data(k - 1, o, ln)
                         reads = f.stop()
@@ -234,6 +254,9 @@ def run(ctx, which):
                                        kind='E' if fld.lr_is_eflr else 'I', type=fld.lr_type))
                         if len(kept) < 4:
                             kept.append((k, o, ln, fld))
+                    if comp_bad:
+                        ctx.fail('C02: a second index used alternately with this one fetches differently from alone: %s' % comp_bad[0], dict(case=ci),
+                                 sig=dict(op='two-indexes'))
                     # results returned earlier must still be what they were (no aliasing with reader state)
                     for (k, o, ln, fld) in kept:
                         data = bytes(fld.logical_data.bytes)
